@@ -22,6 +22,8 @@ pub type Logs = Arc<Mutex<HashMap<String, Arc<Mutex<Vec<Req>>>>>>;
 #[derive(Clone, Default)]
 pub struct Sources {
 	pub map: HashMap<String, Src>,
+	/// per in-memory source: coordinates at which a single-tile lookup fails (a damaged region, an unreadable file)
+	pub failing: HashMap<String, Arc<std::collections::BTreeSet<crate::gen::Key>>>,
 }
 
 impl Sources {
@@ -41,9 +43,11 @@ pub const DIR: &str = "/vtv-mem";
 pub fn factory(sources: &Sources, data_dir: Option<&Path>) -> (PipelineFactory, Logs) {
 	let logs: Logs = Arc::new(Mutex::new(HashMap::new()));
 	let map = Arc::new(sources.map.clone());
+	let failing = Arc::new(sources.failing.clone());
 	let logs2 = logs.clone();
 	let cb = Box::new(move |filename: String| -> BoxFuture<'static, Result<Box<dyn TilesReaderTrait>>> {
 		let map = map.clone();
+		let failing = failing.clone();
 		let logs = logs2.clone();
 		Box::pin(async move {
 			let key = Path::new(&filename).file_name().map(|s| s.to_string_lossy().to_string()).unwrap_or_default();
@@ -61,6 +65,7 @@ pub fn factory(sources: &Sources, data_dir: Option<&Path>) -> (PipelineFactory, 
 					m.default_stream = *default_stream;
 					m.yields = *yields;
 					m.name = key.clone();
+					m.failing = failing.get(&key).cloned();
 					let (m, log) = m.recording();
 					logs.lock().unwrap().insert(key, log);
 					Ok(m.boxed())
